@@ -848,6 +848,8 @@ func runAlloc(t *testing.T, prop string) {
 	case "C06":
 		faultMenu, crashMenu = true, true
 		menus = "fault+crash"
+	case "C07":
+		menus = "fault"
 	case "C03":
 		// one failing status write (no crash) is part of the environment of C03 in the universes where a service
 		// can be rewritten while keeping its address (PreferDualStack top-up)
@@ -1044,6 +1046,14 @@ func runAlloc(t *testing.T, prop string) {
 				// a failing List in the pool reconciler (namespaces, pools, communities): nothing in the cluster changed, so
 				// no service may move
 				poolFaultMenu = true
+			}
+			if prop == "C07" {
+				faultMenu = false
+				if u.Name == "release" || (thorough && (u.Name == "share" || u.Name == "dual")) {
+					// one failing status write: what a service released before the failed write must still reach the services
+					// waiting for it (the retry no longer sees that anything was released)
+					faultMenu, maxFault = true, 1
+				}
 			}
 			if prop == "C06" {
 				maxFault = 1
